@@ -247,13 +247,16 @@ def framed(d):
     return t[1:-1] if len(t) >= 2 and t.startswith("*") and t.endswith(";") else None
 
 
-def check_1090(col, binpath, rng, tag, seg_kind, delay_kind, malformed, scratch, n_lines=None):
+def check_1090(col, binpath, rng, tag, seg_kind, delay_kind, malformed, scratch, n_lines=None, pause_s=0.0):
     slow = seg_kind == "per_byte" and delay_kind == "gt_timeout"  # a pause behind every byte: keep the feed short
     lines, _ = build_feed(rng, n_lines or (3 if slow else rng.randint(20, 90)), malformed)
     steps, midline = segment(rng, lines, seg_kind, delay_kind)
     # every third scenario the server goes away right behind the last line: what was sent before
     # the close still has to come out (nothing about 1090's own fate after a disconnect is judged)
     closing = tag.rsplit("#", 1)[-1].isdigit() and int(tag.rsplit("#", 1)[-1]) % 3 == 1
+    if pause_s:
+        # the feed falls silent for a while in the middle (the connection stays open), then goes on
+        steps = steps[: len(steps) // 2] + [("sleep", pause_s)] + steps[len(steps) // 2:]
     plan = steps + [("mark", "feed_done")] + ([("close",), ("sleep", 30)] if closing else [("sleep", 30)])
     # the two --panic-* options are for debugging the decoder: --panic-decode ends the client on a
     # frame that does not decode, --panic-display on one that renders to nothing. Each is used only
@@ -270,7 +273,7 @@ def check_1090(col, binpath, rng, tag, seg_kind, delay_kind, malformed, scratch,
     inp = {"client": "1090", "options": extra, "segmentation": seg_kind, "delay": delay_kind, "malformed": malformed, "lines": [d.decode("latin1") for _, d, *_ in lines], "tag": tag}
     try:
         # wait until the feed is out and the client is quiet
-        end = time.monotonic() + 90
+        end = time.monotonic() + 90 + pause_s
         while time.monotonic() < end:
             marks = [e for e in s.srv.log if e[1] == "mark"]
             if marks and time.monotonic() - max(s.t_last, s.srv.t_last_send or 0) > 0.7:
@@ -404,7 +407,7 @@ def compare_rows(col, rows, expect, cls, inp, phase):
     return True
 
 
-def check_radar(col, binpath, rng, tag, seg_kind, delay_kind, malformed, disconnect, scratch, limit=None, n_lines=None):
+def check_radar(col, binpath, rng, tag, seg_kind, delay_kind, malformed, disconnect, scratch, limit=None, n_lines=None, pause_s=0.0):
     if limit is None:
         limit = rng.random() < 0.25
     slow = seg_kind == "per_byte" and delay_kind == "gt_timeout"
@@ -412,7 +415,9 @@ def check_radar(col, binpath, rng, tag, seg_kind, delay_kind, malformed, disconn
     steps, midline = segment(rng, lines, seg_kind, delay_kind)
     # how long radar may need to work through this feed (about 100 lines or 100 KB per second when
     # nothing else runs): every wait that covers a backlog is this much longer
-    drain = len(lines) / 40.0 + sum(len(d) for _, d, *_ in lines) / 40000.0
+    drain = len(lines) / 40.0 + sum(len(d) for _, d, *_ in lines) / 40000.0 + pause_s
+    if pause_s:
+        steps = steps[: len(steps) // 2] + [("sleep", pause_s)] + steps[len(steps) // 2:]
     opts = ["--filter-time", "100000"]
     if limit:
         opts.append("--limit-parsing")
@@ -470,7 +475,7 @@ def check_radar(col, binpath, rng, tag, seg_kind, delay_kind, malformed, disconn
     try:
         sess.wait_connected()
         # wait for the first mark
-        end = time.monotonic() + 90
+        end = time.monotonic() + 90 + pause_s
         while time.monotonic() < end and not any(e[1] == "mark" for e in sess.srv.log):
             sess.p.pump(0.05)
             if not sess.p.alive():
@@ -507,6 +512,10 @@ def check_radar(col, binpath, rng, tag, seg_kind, delay_kind, malformed, disconn
                     loc = sess.panic_location()
                     col.add("C16", f"C16|radar_terminated|{cls}", f"radar exited (status {sess.p.p.returncode}, panic at {loc}) while the server was connected", dict(inp, panic=loc))
                     return
+                if not sess.ui_present() and not any(e[1] == "closed" for e in sess.srv.log):
+                    # alive, but not showing its UI although the server never closed: it gave the connection up
+                    col.add("C16", f"C16|radar_left_live_connection|{cls}", f"the server kept the connection open, yet radar left its main screen (the last screen lines: {[l.strip() for l in sess.p.screen.text() if l.strip()][-3:]})", inp)
+                    return
                 raise Inconclusive("Airplanes table not found on screen")
             ok = compare_rows(col, rows, expect, cls, inp, "first_connection")
         tc = sess.tab_title_count()
@@ -534,6 +543,9 @@ def check_radar(col, binpath, rng, tag, seg_kind, delay_kind, malformed, disconn
             size = sum(len(d) for _, d, *_ in lines) if backlog else 0
             rows = parse_when_stable(sess, sentinel_msgs=expect[SENTINEL]["msgs"], cap=60.0 + drain, quiet_cap=6.0 + size / 40000.0)
             if rows is None:
+                if sess.p.alive() and not sess.ui_present():
+                    col.add("C16", f"C16|radar_left_live_connection|{cls}|disc={disconnect}", f"after the reconnect the server kept the second connection open, yet radar left its main screen (the last screen lines: {[l.strip() for l in sess.p.screen.text() if l.strip()][-3:]})", inp)
+                    return
                 raise Inconclusive("Airplanes table not found after reconnect")
             compare_rows(col, rows, expect, cls + ("" if disconnect == "retry" else f"|disc={disconnect}"), dict(inp, lines2=[d.decode() for _, d, *_ in lines2]), "after_reconnect_tracked_aircraft_kept")
             col.count("reconnects_observed")
@@ -579,6 +591,51 @@ def check_radar(col, binpath, rng, tag, seg_kind, delay_kind, malformed, disconn
             raise
         loc = sess.panic_location()
         col.add("C16", f"C16|radar_terminated|{cls}", f"radar exited (status {sess.p.p.returncode}, panic at {loc}) while the server was connected and no quit was requested", dict(inp, panic=loc))
+    finally:
+        sess.close()
+
+
+def check_many_reconnects(col, binpath, rng, tag, scratch, n_conn):
+    """--retry-tcp through a dozen (thorough: more) short connections in a row: each one is found again
+    within the usual limit, every line of every connection counts once."""
+    addrs = [0x490000 + rng.randrange(1 << 16) for _ in range(2)]
+    expect = {a: {"msgs": 0, "callsign": None} for a in addrs}
+    plan = []
+    counter = rng.randrange(1 << 20)
+    for k in range(n_conn):
+        if k:
+            plan += [("close",), ("sleep", rng.choice([0.05, 0.2, 0.6])), ("accept", 25.0)]
+        for _ in range(rng.randint(1, 4)):
+            a = rng.choice(addrs)
+            counter += 1
+            plan.append(("send", enc.line(enc.long_frame(17, rng.randrange(8), a, enc.me_unique(23, counter)))))
+            expect[a]["msgs"] += 1
+        plan.append(("sleep", 0.4))
+    plan.append(("send", enc.line(enc.long_frame(17, 5, SENTINEL, enc.me_ident(4, 0, "ENDFEED")))))
+    expect[SENTINEL] = {"msgs": 1, "callsign": "ENDFEED"}
+    plan += [("mark", "feed_done"), ("sleep", 60)]
+    opts = ["--filter-time", "100000", "--retry-tcp"]
+    cls = f"reconnects={n_conn}"
+    inp = {"client": "radar", "options": opts, "connections": n_conn, "tag": tag}
+    sess = session.RadarSession(binpath, plan, opts=opts, rows=40, cols=130, scratch=scratch)
+    try:
+        sess.wait_connected()
+        end = time.monotonic() + 60 + 30 * n_conn
+        while time.monotonic() < end and not sess.srv.marked("feed_done") and not sess.srv.error and sess.p.alive():
+            sess.p.pump(0.1)
+        col.count("scenarios_radar")
+        col.cls(f"radar|{cls}")
+        if not sess.p.alive():
+            col.add("C16", f"C16|radar_retry_exited|{cls}", f"with --retry-tcp radar exited (status {sess.p.p.returncode}, panic {sess.panic_location()}) during a series of {n_conn} short connections (connection {sess.srv.connections})", inp)
+            return
+        if sess.srv.error or not sess.srv.marked("feed_done"):
+            col.add("C16", f"C16|radar_retry_no_reconnect|{cls}", f"with --retry-tcp radar did not come back within 25 s after connection {sess.srv.connections} of {n_conn} ({sess.srv.error})", inp)
+            return
+        col.count("reconnects_observed", n_conn - 1)
+        rows = parse_when_stable(sess)
+        if rows is None:
+            raise Inconclusive("Airplanes table not found on screen")
+        compare_rows(col, rows, expect, cls, inp, "after_many_reconnects")
     finally:
         sess.close()
 
@@ -631,6 +688,11 @@ def main(a, lcol, col, run_all, scratch, START):
             jobs.insert(0, (f"1090/{tag}", lambda rng, sk=sk, tag=tag, n_bulk=n_bulk: check_1090(lcol, a.bin, rng, tag, sk, "none", "semicolon", scratch, n_lines=n_bulk)))
         else:
             jobs.insert(0, (f"radar/{tag}", lambda rng, sk=sk, tag=tag, n_bulk=n_bulk: check_radar(lcol, a.bin, rng, tag, sk, "none", "two_hex", "retry", scratch, False, n_lines=n_bulk)))
+    # the feed falls silent for 16 s in the middle of a connection, then goes on
+    jobs.insert(0, ("1090/per_line/none/none#silence", lambda rng: check_1090(lcol, a.bin, rng, "per_line/none/none#902", "per_line", "none", "none", scratch, pause_s=16.0)))
+    jobs.insert(0, ("radar/per_line/none/none#silence", lambda rng: check_radar(lcol, a.bin, rng, "per_line/none/none#904", "per_line", "none", "none", "retry", scratch, False, pause_s=16.0)))
+    for i, n_conn in enumerate([13] + ([13, 20, 30] if thorough else [])):
+        jobs.insert(0, (f"radar/reconnects#{i}", lambda rng, i=i, n_conn=n_conn: check_many_reconnects(lcol, a.bin, rng, f"reconnects#{i}", scratch, n_conn)))
     if a.replay:
         import json
         r = json.load(open(a.replay))["input"]
